@@ -120,6 +120,24 @@ impl<E: FieldElement, H: ElementHasher<BaseField = E::BaseField>> VerifierChanne
             .parse(main_trace_width, aux_trace_width, constraint_frame_width)
             .map_err(|err| VerifierError::ProofDeserializationError(err.to_string()))?;
 
+        // whether the frame of a Lagrange kernel column is present is decided by the AIR, not by the
+        // proof: a frame the AIR does not expect would be evaluated against constraints which do not
+        // exist, and a missing one cannot be evaluated; the frame of a Lagrange kernel column consists
+        // of log2(trace_length) + 1 evaluations
+        let expected_lagrange_frame_len = if air.context().has_lagrange_kernel_aux_column() {
+            Some(air.trace_length().ilog2() as usize + 1)
+        } else {
+            None
+        };
+        if ood_trace_frame.lagrange_kernel_frame().map(|frame| frame.num_rows())
+            != expected_lagrange_frame_len
+        {
+            return Err(VerifierError::ProofDeserializationError(
+                "Lagrange kernel evaluation frame is inconsistent with the trace layout"
+                    .to_string(),
+            ));
+        }
+
         Ok(VerifierChannel {
             // trace queries
             trace_roots,
